@@ -4,7 +4,7 @@
    every number of workers, serial queues and every trace (= every interleaving) the system accepts. *)
 Require Import Coq.Lists.List Coq.Arith.Arith.
 From Mustache Require Import Dispatcher.
-From Mustache.proofs Require Import DispatcherProofs.
+From Mustache.proofs Require Import DispatcherProofs DispatcherOnce.
 Import ListNotations.
 
 (* the invariant holds in every reachable state *)
@@ -47,6 +47,137 @@ Theorem C08_range_split : forall first last threads task_count,
 Proof. exact parallel_for_tiles. Qed.
 Print Assumptions C08_range_split.
 
+(* ==== exactly once, FIFO ids, serial order, teardown, thread ids (proofs/DispatcherOnce.v) ====
+   Vocabulary: holds s h q id = thread h (Some k: worker k, thread id k+1; None: the external thread helping inside
+   wait(), thread id 0) is running task id of queue q; runner = some thread holds it; finished s = the log of ended
+   tasks, most recent first; tid h = the thread id the task observes. *)
+
+(* the second invariant holds in every reachable state *)
+Theorem C08_invariant2 : forall strict nw ns tr s, drun strict (d_init nw ns) tr = Some s -> Inv2 s.
+Proof. intros strict nw ns tr s H. exact (proj2 (reach_inv strict nw ns tr s H)). Qed.
+Print Assumptions C08_invariant2.
+
+(* 1. at most once: no task ends twice, ... *)
+Theorem C08_at_most_once : forall strict nw ns tr s, drun strict (d_init nw ns) tr = Some s ->
+  NoDup (finished s).
+Proof. exact once_nodup. Qed.
+Print Assumptions C08_at_most_once.
+
+Theorem C08_at_most_once_count : forall strict nw ns tr s, drun strict (d_init nw ns) tr = Some s ->
+  forall q id, count_occ task_eq_dec (finished s) (q, id) <= 1.
+Proof. exact once_count. Qed.
+Print Assumptions C08_at_most_once_count.
+
+(* ... a task that is being run has not ended before, ... *)
+Theorem C08_running_not_finished : forall strict nw ns tr s, drun strict (d_init nw ns) tr = Some s ->
+  forall h q id, holds s h q id -> is_fin s q id = false.
+Proof. exact running_not_finished. Qed.
+Print Assumptions C08_running_not_finished.
+
+(* ... and no two threads (workers / helper) run the same task *)
+Theorem C08_one_thread_per_task : forall strict nw ns tr s, drun strict (d_init nw ns) tr = Some s ->
+  forall h1 h2 q id, holds s h1 q id -> holds s h2 q id -> h1 = h2.
+Proof. exact one_thread_per_task. Qed.
+Print Assumptions C08_one_thread_per_task.
+
+(* 2. ids are FIFO positions: the tasks that have been started (finished or running) are exactly those below the pop
+   counter of their queue *)
+Theorem C08_started_iff_popped : forall strict nw ns tr s, drun strict (d_init nw ns) tr = Some s ->
+  forall q qu id, nth_error (queues s) q = Some qu ->
+  (id < q_pop qu <-> (is_fin s q id = true \/ runner s q id)).
+Proof. exact started_iff_popped. Qed.
+Print Assumptions C08_started_iff_popped.
+
+Theorem C08_started_has_queue : forall strict nw ns tr s, drun strict (d_init nw ns) tr = Some s ->
+  forall q id, is_fin s q id = true \/ runner s q id -> exists qu, nth_error (queues s) q = Some qu /\ id < q_pop qu.
+Proof. exact started_has_queue. Qed.
+Print Assumptions C08_started_has_queue.
+
+(* exactly once: a popped task that nobody runs any more is in the log exactly once *)
+Theorem C08_exactly_once_when_ended : forall strict nw ns tr s, drun strict (d_init nw ns) tr = Some s ->
+  forall q qu id, nth_error (queues s) q = Some qu -> id < q_pop qu -> ~ runner s q id ->
+  count_occ task_eq_dec (finished s) (q, id) = 1.
+Proof. exact exactly_once_when_ended. Qed.
+Print Assumptions C08_exactly_once_when_ended.
+
+(* exactly once by the time a wait on the queue returns: when the barrier passes in the model of the code, every task
+   submitted to the queue before the waiter saw it empty (ids below obs) is in the log exactly once *)
+Theorem C08_exactly_once_at_wait_return : forall nw ns tr s q s',
+  drun true (d_init nw ns) tr = Some s -> dstep true s (EBarrierPass q) = Some s' ->
+  exists obs, helper s = HBarrier q obs /\ finished s' = finished s /\
+              forall id, id < obs -> count_occ task_eq_dec (finished s') (q, id) = 1.
+Proof. exact exactly_once_at_wait_return. Qed.
+Print Assumptions C08_exactly_once_at_wait_return.
+
+(* 3. serial queues: the running job is the last one popped; at most one job runs, on one thread; when job id has
+   started every earlier job has ended; the queue's log, oldest first, is 0, 1, ..., n-1 with n or n+1 jobs popped *)
+Theorem C08_serial_running_is_last_popped : forall strict nw ns tr s, drun strict (d_init nw ns) tr = Some s ->
+  forall q qu h id, nth_error (queues s) q = Some qu -> q_serial qu = true -> holds s h q id -> S id = q_pop qu.
+Proof. exact serial_running_is_last_popped. Qed.
+Print Assumptions C08_serial_running_is_last_popped.
+
+Theorem C08_serial_one_running : forall strict nw ns tr s, drun strict (d_init nw ns) tr = Some s ->
+  forall q qu h1 h2 id1 id2, nth_error (queues s) q = Some qu -> q_serial qu = true ->
+  holds s h1 q id1 -> holds s h2 q id2 -> h1 = h2 /\ id1 = id2.
+Proof. exact serial_one_running. Qed.
+Print Assumptions C08_serial_one_running.
+
+Theorem C08_serial_prefix_finished : forall strict nw ns tr s, drun strict (d_init nw ns) tr = Some s ->
+  forall q qu id id', nth_error (queues s) q = Some qu -> q_serial qu = true ->
+  is_fin s q id = true \/ runner s q id -> id' < id -> is_fin s q id' = true.
+Proof. exact serial_prefix_finished. Qed.
+Print Assumptions C08_serial_prefix_finished.
+
+Theorem C08_serial_finish_order : forall strict nw ns tr s, drun strict (d_init nw ns) tr = Some s ->
+  forall q qu, nth_error (queues s) q = Some qu -> q_serial qu = true ->
+  exists n, rev (fin_of s q) = seq 0 n /\ (q_pop qu = n \/ q_pop qu = S n).
+Proof. exact serial_finish_order. Qed.
+Print Assumptions C08_serial_finish_order.
+
+(* 4. teardown.  What the model gives: EJoined is accepted only when every worker has exited, and from then on no
+   event of a worker loop (top / wait / pop / end / exit) is accepted at all, so no worker runs or ends anything; the
+   log can only grow by EHEnd events, i.e. by tasks the EXTERNAL thread runs itself if it calls wait() on a queue
+   again.  The model does not forbid that (nor an external wait() that is still in progress at EJoined), and it
+   deliberately lets a worker pop between ETerminate and its exit (the terminate store is not under the mutex). *)
+Theorem C08_joined_all_exited : forall strict nw ns tr s, drun strict (d_init nw ns) tr = Some s ->
+  joined s = true -> all_exited s.
+Proof. exact joined_all_exited. Qed.
+Print Assumptions C08_joined_all_exited.
+
+Theorem C08_joined_no_worker_runs : forall strict nw ns tr s, drun strict (d_init nw ns) tr = Some s ->
+  joined s = true -> forall t q id, ~ holds s (Some t) q id.
+Proof. exact joined_no_worker_runs. Qed.
+Print Assumptions C08_joined_no_worker_runs.
+
+Theorem C08_joined_terminated : forall strict nw ns tr s, drun strict (d_init nw ns) tr = Some s ->
+  joined s = true -> 0 < nw -> term s = true.
+Proof. exact joined_terminated. Qed.
+Print Assumptions C08_joined_terminated.
+
+Theorem C08_after_join : forall strict nw ns tr s, drun strict (d_init nw ns) tr = Some s -> joined s = true ->
+  forall tr2 s2, drun strict s tr2 = Some s2 ->
+  workers s2 = workers s /\ (forall e, In e tr2 -> worker_loop_event e = false) /\
+  exists l, finished s2 = l ++ finished s /\ length l = length (filter is_hend tr2).
+Proof. exact after_join. Qed.
+Print Assumptions C08_after_join.
+
+Theorem C08_after_join_nothing_runs : forall strict nw ns tr s, drun strict (d_init nw ns) tr = Some s -> joined s = true ->
+  forall tr2 s2, drun strict s tr2 = Some s2 -> (forall q, ~ In (EHEnd q) tr2) -> finished s2 = finished s.
+Proof. exact after_join_nothing_runs. Qed.
+Print Assumptions C08_after_join_nothing_runs.
+
+(* 5. thread ids: two different running tasks observe different thread ids (in any state: a thread holds one task),
+   and every observed id is in 0..nworkers *)
+Theorem C08_tid_distinct : forall s h1 h2 q1 id1 q2 id2, holds s h1 q1 id1 -> holds s h2 q2 id2 ->
+  (q1, id1) <> (q2, id2) -> tid h1 <> tid h2.
+Proof. exact tid_distinct. Qed.
+Print Assumptions C08_tid_distinct.
+
+Theorem C08_tid_range : forall strict nw ns tr s, drun strict (d_init nw ns) tr = Some s ->
+  forall h q id, holds s h q id -> tid h <= nw.
+Proof. exact tid_range. Qed.
+Print Assumptions C08_tid_range.
+
 (* NOT proved here (stated in DESIGN.md as partial): liveness (wait always returns) beyond what the trace validation
    observes on real executions; data-race freedom of the C++ (checked with ThreadSanitizer in ./check C06). *)
 
@@ -56,3 +187,47 @@ Example C08_example :
     [ESubmit 0; ESubmit 0; EWTop 1; EWPop 1 0; EWTop 2; EWPop 2 0; EHEnter 0; EHEmpty 0; EBarrierSpin;
      EWEnd 1 0; EWTop 1; EWWaitEnter 1 1; EWEnd 2 0; EWTop 2; EWWaitEnter 2 2; EBarrierPass 0] <> None.
 Proof. vm_compute. discriminate. Qed.
+
+(* non-vacuity of the hypotheses above.  Two workers, one serial queue (queue 1): worker 1 runs (0,0), the helper runs
+   (0,1), worker 2 runs serial job (1,1), serial job (1,0) has ended *)
+Definition C08_trace_a : list event :=
+  [ESubmit 0; ESubmit 0; ESubmit 1; ESubmit 1; EWTop 1; EWPop 1 0; EWTop 2; EWPop 2 1; EWEnd 2 1; EWTop 2; EWPop 2 1;
+   EHEnter 0; EHPop 0].
+Example C08_example_running : exists s qu0 qu1,
+  drun true (d_init 2 1) C08_trace_a = Some s /\
+  holds s (Some 0) 0 0 /\ holds s None 0 1 /\ holds s (Some 1) 1 1 /\ is_fin s 1 0 = true /\
+  nth_error (queues s) 0 = Some qu0 /\ q_pop qu0 = 2 /\
+  nth_error (queues s) 1 = Some qu1 /\ q_serial qu1 = true /\ q_pop qu1 = 2 /\
+  (0, 0) <> (0, 1) /\ tid (Some 0) = 1 /\ tid None = 0 /\ fin_of s 1 = [0].
+Proof. do 3 eexists. vm_compute. repeat split; try reflexivity. discriminate. Qed.
+
+(* a popped task nobody runs any more: after both serial jobs ended, queue 1 has q_pop = 2 and no runner *)
+Example C08_example_ended : exists s qu1,
+  drun true (d_init 2 1) (C08_trace_a ++ [EWEnd 2 1]) = Some s /\
+  nth_error (queues s) 1 = Some qu1 /\ q_pop qu1 = 2 /\ q_serial qu1 = true /\
+  (forall id, ~ runner s 1 id) /\ rev (fin_of s 1) = seq 0 2.
+Proof.
+  do 2 eexists. vm_compute. repeat split; try reflexivity.
+  intros id ([[|[|t]]|] & R); vm_compute in R; try discriminate. destruct t; discriminate.
+Qed.
+
+(* a strict barrier pass with obs = 2 (the trace of C08_example, the pass as the last step) *)
+Example C08_example_wait_return : exists s s',
+  drun true (d_init 2 1)
+    [ESubmit 0; ESubmit 0; EWTop 1; EWPop 1 0; EWTop 2; EWPop 2 0; EHEnter 0; EHEmpty 0; EBarrierSpin;
+     EWEnd 1 0; EWTop 1; EWWaitEnter 1 1; EWEnd 2 0; EWTop 2; EWWaitEnter 2 2] = Some s /\
+  dstep true s (EBarrierPass 0) = Some s' /\ helper s = HBarrier 0 2.
+Proof. do 2 eexists. vm_compute. repeat split; reflexivity. Qed.
+
+(* teardown: one worker; a task popped before the worker saw terminate still ends; after the join the external thread
+   submits and runs one more task itself (the only way the log can grow), or just submits (nothing runs) *)
+Definition C08_trace_join : list event :=
+  [ESubmit 0; EWTop 1; EWPop 1 0; ETerminate; EClear; EWEnd 1 0; EWExit 1; EWDone 1; EJoined].
+Example C08_example_join : exists s s2 s3,
+  drun true (d_init 1 0) C08_trace_join = Some s /\ joined s = true /\ 0 < 1 /\ finished s = [(0, 0)] /\
+  drun true s [ESubmit 0; EHEnter 0; EHPop 0; EHEnd 0] = Some s2 /\ finished s2 = [(0, 1); (0, 0)] /\
+  drun true s [ESubmit 0; EHEnter 0] = Some s3 /\ (forall q, ~ In (EHEnd q) [ESubmit 0; EHEnter 0]) /\ finished s3 = finished s.
+Proof.
+  do 3 eexists. vm_compute. repeat split; try reflexivity; try (repeat constructor; fail).
+  intros q [E|[E|[]]]; discriminate.
+Qed.
